@@ -423,6 +423,7 @@ func init() {
 	addPlan("C15", planEntry{Engine: "A", Scenario: "election", Params: "oldtimers=1", Quick: 6, Thorough: 60})
 	addPlan("C17", planEntry{Engine: "A", Scenario: "election", Params: "oldtimers=1", Quick: 6, Thorough: 60})
 	addPlan("C17", planEntry{Engine: "A", Scenario: "member", Params: "oldtimers=1", Quick: 4, Thorough: 40})
+	addPlan("C17", planEntry{Engine: "A", Scenario: "slow-fsm-install", Params: "seg=1024,oldtimers=1", Quick: 6, Thorough: 60})
 	addPlan("C16", planEntry{Engine: "A", Scenario: "transfer", Params: "oldtimers=1", Quick: 6, Thorough: 60})
 	addPlan("C01", planEntry{Engine: "A", Scenario: "election", Params: "oldtimers=1", Quick: 6, Thorough: 60})
 	addPlan("C10", planEntry{Engine: "B", Scenario: "crashenum", Params: "steps=110,passes=90", Quick: 5, Thorough: 60, Watchdog: 300e9})
